@@ -12,7 +12,8 @@ REPO_SRCS = [
 AXIOM_ALLOW = []
 RULE = ("random rule sets: 1..6 agents with 1..4 actions, 0..10 rules over 1..3 agents each (repeated, nested, "
         "overlapping, disconnected key sets; unmentioned agents; negative / zero dyadic payoffs), 1..3 rule sets "
-        "per case run on the same maximiser/graph objects; non-trivial = at least two rules and one rule over "
+        "per case run on the same maximiser/graph objects; *mix kinds: one maximiser (VE: and graph) object over 2..4 "
+        "problems with DIFFERENT action spaces; non-trivial = at least two rules and one rule over "
         ">= 2 agents")
 TRUSTED_BASE = [
     "size_t modelled as unbounded nat; doubles as exact rationals (dyadic payoffs: sums are exact)",
@@ -21,9 +22,10 @@ TRUSTED_BASE = [
     "FactorGraph adjacency bookkeeping (per-variable factor lists, vNeighbors) modelled by its meaning: "
     "sub-sequences of the creation-ordered factor list / sorted union of adjacent variables",
     "payoffs are never numeric_limits<double>::lowest() (used by the code as a 'nothing found' marker)",
-    "MOVE model: extractDominated modelled by its meaning on exactly represented vectors (results compared as "
-    "sets of value vectors); LS/MaxPlus/RILS search, message passing and RNG are not modelled (any in-range "
-    "action + evaluateGraph); UCVE has no model (oracle only: exact a+sqrt(b) comparison written in the driver)",
+    "MOVE model = the code repaired by fixes/C13-move-ucve-unmentioned-zero.patch; extractDominated modelled by its "
+    "meaning on exactly represented vectors (results compared as sets of value vectors); LS/MaxPlus/RILS search, "
+    "message passing and RNG are not modelled (any in-range action + evaluateGraph); UCVE has no model (oracle "
+    "only; its a+sqrt(b) comparison is the Coq-extracted sqrt_sum_le, proved exact in ProofsSqrt.v)",
 ]
 ASSUMPTIONS = [
     "every agent has at least one action; rule keys are non-empty, strictly increasing, name existing agents; "
@@ -148,6 +150,15 @@ def gen_case(rng, kind):
         if kind == "rils":
             extra = " %d %d" % (rng.choice([0, 1, 3, 10]), rng.choice([0, 1]))
         return "%s %s%s %d %s" % (kind, L(A), extra, nsets, " ".join(fmt_rules(s) for s in sets))
+    if kind.endswith("mix"):
+        nseg = rng.choice([2, 3, 3, 4])
+        segs = []
+        first = None
+        for _ in range(nseg):
+            As = gen_A(rng)
+            first = first or As
+            segs.append("%s %s" % (L(As), fmt_rules(gen_rules(rng, As, gen_keysets(rng, As), dy))))
+        return "%s %s %d %s" % (kind, L(first), nseg, " ".join(segs))
     if kind == "move":
         nobj = rng.choice([2, 2, 3])
         pay = lambda r: "%d %s" % (nobj, " ".join(dy(r, -8, 8) for _ in range(nobj)))
@@ -166,5 +177,6 @@ def gen_case(rng, kind):
 
 def gen(rng, tier):
     n = {"quick": 1500, "thorough": 12000, "search": 4000}[tier]
-    kinds = ["ve"] * 10 + ["ls", "ls", "mp", "mp", "rils", "rils", "move", "move", "ucve", "ucve"]
+    kinds = ["ve"] * 9 + ["ls", "ls", "mp", "mp", "rils", "rils", "move", "move", "ucve", "ucve",
+                          "vemix", "lsmix", "mpmix", "rilsmix"]
     return [gen_case(rng, rng.choice(kinds)) for _ in range(n)]
